@@ -232,7 +232,7 @@ func actionsRunBatch(c *Ctx, r *rng.R, b *run.Batch, cases []*PCase, bounds bool
 		}
 		// shape census
 		census(c, pc, res.Events)
-		if jid%97 == 0 {
+		if c.Ev.WantSample() {
 			c.Ev.Sample(map[string]any{"lox": pc.Lox, "input": tokString(pc.G, w), "bounds": pc.Opt.Bounds, "observed_calls": sem.Show(res.Events)})
 		}
 	}
